@@ -34,6 +34,9 @@ func GenConcScript(r *Rng, stress bool, hist map[string]int) []string {
 	if r.Chance(1, 2) {
 		c.fsize = r.Pick(200, 700, 4096) // rotations during the run
 	}
+	if stress && r.Chance(1, 2) {
+		c.shards = r.Pick(1, 2, 3) // many index entries per shard
+	}
 	add("dir db")
 	add("open %s", c)
 	keys := []string{"6b31", "6b32", "6b33"}
@@ -45,7 +48,12 @@ func GenConcScript(r *Rng, stress bool, hist map[string]int) []string {
 		for i := 0; i < 12; i++ {
 			add("put %s %s", fmt.Sprintf("%x", fmt.Sprintf("ck%02d", r.Intn(4))), val())
 		}
-		add("concstress %d %d %d %d %d", 2+r.Intn(7), 10+r.Intn(25), 2+r.Intn(3), r.Intn(1<<30), r.Intn(2))
+		static := 0
+		if r.Chance(1, 2) {
+			static = r.Pick(300, 3000)
+			hist["conc_stress_with_static_population"]++
+		}
+		add("concstress %d %d %d %d %d %d", 2+r.Intn(7), 10+r.Intn(25), 2+r.Intn(3), r.Intn(1<<30), r.Intn(2), static)
 		hist["conc_stress"]++
 		add("close")
 		return out
